@@ -215,6 +215,13 @@ def stepLine (s : Srv) (line : String) : Srv × String :=
           | .ok => (r.1, "ok")
           | .err e => (r.1, "err:" ++ e.tag)
           | _ => (r.1, "bad-op")
+        | "copyout" =>     -- io.Copy(w, f): Read until the end of the file; the final io.EOF is not an error of the copy
+          let pre := contentStr (hContent s i)
+          let r := fileRead s i (2 ^ 40)
+          match r.2 with
+          | .bytes b e => (r.1, s!"bytes={contentStr b} err:{if errTag e = "eof" then "-" else errTag e} srv={pre}")
+          | .undef => (r.1, "skip")
+          | _ => (r.1, "bad-op")
         | _ => (s, "bad-op")
   | _ => (s, "bad-op")
 
